@@ -59,7 +59,7 @@ def build():
             }
         ],
         "checks": checks,
-        "notes": "Technique family: static analysis only. Quick = rules on the precise call graph; thorough = same rules on the conservative call graph plus the both-ways seeded-variant self-test of that property's rules. Exit 2 + ANALYSIS-ERROR means the analyser could not do its job (vanished anchor / floor not met), never a silent pass. Known findings: /verif/known_findings.json.",
+        "notes": "Technique family: static analysis only. Quick = rules on the precise call graph; thorough = the same rules, then a second pass over the name-based conservative call graph whose additional reports are listed as unproven (it over-approximates dispatch too much to alarm on), then the both-ways seeded-variant self-test of that property's rules. Exit 2 + ANALYSIS-ERROR means the analyser could not do its job (vanished anchor / floor not met), never a silent pass. Known findings: /verif/known_findings.json.",
         "not_applicable": na,
     }
     with open(os.path.join(VERIF, "MANIFEST.json"), "w") as fh:
